@@ -20,7 +20,7 @@ CHECKS = {
  "C06": ("tracersim", "exploration", "online send-discipline monitor over wire records and hand-overs", "4 C06"),
  "C07": ("tracersim", "exploration", "sequence arithmetic monitor over long runs from boundary initial sequences with TCP port-collision storms, plus re-delivery of previous-round responses", "4 C07"),
  "C08": ("tracersim", "exploration", "timing predicate evaluated on the exact clock values handed to the tracer (virtual clock, exact tick accounting)", "4 C08"),
- "C09": ("tracersim", "exploration", "socket faults at random call sites and kinds; round count / error hand-off / Failed / Skipped semantics", "4 C09"),
+ "C09": ("tracersim", "exploration", "socket faults at random call sites and kinds plus an enumeration of every single scripted fault (configuration x call site x setup/run phase x occurrence x errno; thorough: also fault pairs); round count / error hand-off / Failed / Skipped semantics", "4 C09"),
  "C10": ("tracersim", "exploration", "hop-window invariants on a snapshot after every published round; true distance on stable paths", "4 C10"),
  "C11": ("tracersim", "exploration", "independent RFC decoder + checksum verification on every datagram of every simulated run", "4 C11"),
 }
